@@ -528,6 +528,23 @@ def c12_monitor(ctx, tr, ix):
     rp = replay_of(tr)
     am = cfgk["accounts_mod"]
     n = 0
+    # a dividend receivable, once booked, stays on the holding (sold out or not) until the morning of its payable date
+    recv = {}
+    for kind, e, acc, when in iter_obs(tr):
+        a_ = (acc or {}).get("STOCK")
+        if a_ is None or when is None or nan_in(a_):
+            continue
+        now8 = B.d8(when.date())
+        cur = {h["id"]: h["long"]["div"] for h in a_["holdings"] if h["long"]["div"]}
+        for oid_, (pay8, amt, seen_at) in list(recv.items()):
+            if oid_ not in cur:
+                if now8 < pay8 and amt:
+                    ctx.witness("C12.2", {"kind": "receivable_vanished"}, "%s: the dividend receivable %r of %s (payable %s, booked by %s) is gone at %s (%s) before its payable date"
+                                % (when, amt, oid_, pay8, seen_at, when, kind), rp)
+                del recv[oid_]
+        for oid_, d_ in cur.items():
+            if oid_ not in recv:
+                recv[oid_] = (int(d_[0]), d_[1], str(when))
     nested = []
     for op in tr.rec.ops:
         if op["nested"]:
